@@ -29,7 +29,7 @@ namespace GojaModel.C03
 structure Ctx where
   prg : Option Nat
   stash : List Nat
-  privEnv : Option Nat
+  privEnv : List Nat
   newTarget : Nat
   result : Nat
   pc : Int
@@ -47,7 +47,7 @@ structure TryFrame where
   refLen : Nat
   sp : Int
   stash : List Nat
-  privEnv : Option Nat
+  privEnv : List Nat
   catchPos : Int
   finallyPos : Int
   finallyRet : Int
@@ -57,7 +57,7 @@ deriving DecidableEq, Repr, Inhabited
 structure FnInfo where
   prg : Nat
   stash : List Nat
-  privEnv : Option Nat
+  privEnv : List Nat
 deriving DecidableEq, Repr, Inhabited
 
 /-- Boundaries that can be entered re-entrantly from a native frame. -/
@@ -75,6 +75,7 @@ inductive FrameKind
   | forOf (closable : Bool)    -- iterate/iterateP … enumPop
   | ref                        -- a reference record live across the body
   | block                      -- enterBlock with a stash … leaveBlock
+  | priv                       -- class body with private names: the private environment is pushed in the SAME call frame
 deriving DecidableEq, Repr
 
 /-- Inner behaviours: a tree of frame operations which may end normally, with a catchable throw or
@@ -117,7 +118,7 @@ structure Vm where
   sb : Int
   args : Nat
   stash : List Nat
-  privEnv : Option Nat
+  privEnv : List Nat
   callStack : List Ctx
   iterStack : List IterItem
   refStack : List Nat
@@ -146,7 +147,7 @@ def globalStash : List Nat := [0]
 
 /-- vm.init (vm.go:602) on a fresh Runtime. -/
 def Vm.fresh (maxDepth : Nat) : Vm :=
-  { prg := none, pc := 0, sp := 0, sb := -1, args := 0, stash := globalStash, privEnv := none,
+  { prg := none, pc := 0, sp := 0, sb := -1, args := 0, stash := globalStash, privEnv := [],
     callStack := [], iterStack := [], refStack := [], tryStack := [], newTarget := 0, result := 0,
     maxCallStackSize := maxDepth, stashAllocs := 0, interrupted := false, jobQueue := [],
     probeCount := 0, faultAt := none, trace := [] }
@@ -254,6 +255,7 @@ def FrameKind.pre (k : FrameKind) (ret : Beh) (s : Vm) : Option Vm :=
     some { s with iterStack := s.iterStack ++ [⟨true, if closable then ret else .skip⟩] }
   | .ref => some { s with refStack := s.refStack ++ [0] }
   | .block => some { s with stash := (s.stashAllocs + 1) :: s.stash, stashAllocs := s.stashAllocs + 1 }
+  | .priv => some { s with privEnv := (s.stashAllocs + 1) :: s.privEnv, stashAllocs := s.stashAllocs + 1 }
 
 def FrameKind.post (k : FrameKind) (s : Vm) : Vm :=
   match k with
@@ -269,6 +271,7 @@ def FrameKind.post (k : FrameKind) (s : Vm) : Vm :=
   | .forOf _ => { s with iterStack := s.iterStack.dropLast }
   | .ref => { s with refStack := s.refStack.dropLast }
   | .block => { s with stash := s.stash.tail }
+  | .priv => { s with privEnv := s.privEnv.tail }
 
 /-! ### the native probe -/
 
@@ -386,7 +389,7 @@ set the callee's registers; `none` = StackOverflowError from pushCtx -/
 def goCallEnter (n : Nat) (f : FnInfo) (s1 : Vm) : Option (Vm × Bool) :=
   let pushed : Option (Vm × Bool) :=
     if s1.prg.isSome then
-      (pushCtx s1).map fun t => ({ t with callStack := t.callStack ++ [⟨none, [], none, 0, 0, -2, 0, 0⟩] }, true)
+      (pushCtx s1).map fun t => ({ t with callStack := t.callStack ++ [⟨none, [], [], 0, 0, -2, 0, 0⟩] }, true)
     else (pushCtx { s1 with pc := -2 }).map fun t => (t, false)
   pushed.map fun (s2, needPop) =>
     ({ s2 with args := n, prg := some f.prg, stash := f.stash, privEnv := f.privEnv,
@@ -455,7 +458,7 @@ def runWrapped (runF : RunF) (lf : Nat) (b : Beh) (s : Vm) : Res :=
 
 /-- RunProgram, `recursive` branch: registers of the nested global code -/
 def recEnter (p : Nat) (s1 : Vm) : Vm :=
-  { s1 with stash := globalStash, privEnv := none, newTarget := 0, args := 0,
+  { s1 with stash := globalStash, privEnv := [], newTarget := 0, args := 0,
             sb := s1.sp + 1, sp := s1.sp + 2, prg := some p, pc := 0, result := 0 }
 
 /-- deferred: `vm.sp -= 2; vm.popCtx()` (only when the context was pushed, fix 195a32b) -/
@@ -470,7 +473,7 @@ def runProgramRec (runF : RunF) (p : Nat) (b : Beh) (s : Vm) : Res :=
     (r.1, recExit r.2)
 
 def outerEnter (p : Nat) (s : Vm) : Vm :=
-  { s with callStack := s.callStack ++ [⟨none, [], none, 0, 0, 0, 0, 0⟩], prg := some p, pc := 0, result := 0 }
+  { s with callStack := s.callStack ++ [⟨none, [], [], 0, 0, 0, 0, 0⟩], prg := some p, pc := 0, result := 0 }
 
 def outerPop (t : Vm) : Vm := { t with callStack := t.callStack.dropLast }
 
@@ -572,7 +575,7 @@ structure CtlState where
   sb : Int
   prg : Option Nat
   stash : List Nat
-  privEnv : Option Nat
+  privEnv : List Nat
   callStack : List Ctx
   tryLen : Nat
   iterLen : Nat
@@ -587,7 +590,7 @@ def ctlState (s : Vm) : CtlState :=
 
 /-- Control is outside the runtime. -/
 def Idle (s : Vm) : Prop :=
-  s.sp = 0 ∧ s.sb = -1 ∧ s.prg = none ∧ s.stash = globalStash ∧ s.privEnv = none ∧
+  s.sp = 0 ∧ s.sb = -1 ∧ s.prg = none ∧ s.stash = globalStash ∧ s.privEnv = [] ∧
   s.callStack = [] ∧ s.tryStack = [] ∧ s.iterStack = [] ∧ s.refStack = [] ∧
   s.jobQueue = [] ∧ s.interrupted = false
 
